@@ -20,6 +20,7 @@ from ..engine import LVec
 from ..verdict import Result
 
 LEVEL = "exploration"
+REPS = {"quick": 1, "thorough": 12}
 RULE = ("synonym table (24 getter synonyms, 12 transverse synonyms, 20 conversion twins, 10 setter synonyms, 10 field "
         "synonyms) x {object, NumPy, Awkward zip/Array/with_name, SymPy} x 20 coordinate systems, exhaustively; operand "
         "values sampled; plus flavor twins (every catalogued operation on a generic vector and on its momentum twin). "
